@@ -326,7 +326,7 @@ where
 		}
 		ring.push_back(x);
 		let sample = pi < positions.len() && positions[pi] == t;
-		if with_state && sample {
+		if sample {
 			// the state the sampled step starts from
 			prev_state = flat_string(&m);
 		}
@@ -353,7 +353,9 @@ where
 				out.line(&format!("N {} ; ok ;", vtok(ring[0])));
 				for (j, y) in ring.iter().enumerate().skip(1) {
 					if j == back {
-						out.line(&format!("X {} ; {} ;", vtok(*y), o.toks()));
+						// the implementation's own pre-state and post-state of the sampled step: per-step tie inside the local case
+						out.line(&format!("T {}", prev_state));
+						out.line(&format!("X {} ; {} ; {}", vtok(*y), o.toks(), flat_string(&m)));
 					} else {
 						out.line(&format!("X {} ; ? ;", vtok(*y)));
 					}
